@@ -352,6 +352,31 @@ def check_template(tpl):
             res.setdefault("rewrites", sorted(tU.rewrites | tM.rewrites))
         except (Unsupported, SpecError) as e:
             obligation("ENCODE", "-", "unsupported", f"{type(e).__name__}: {e}")
+            if isinstance(e, Unsupported) and env is None:
+                # The compiled regex uses a construct the translator does not encode, so nothing can be DECIDED for this
+                # template (reported as a harness error). The reference side is still encodable: let the solver choose
+                # members / non-members of the REFERENCE language and run the real engine on them (bug hunting, replayable).
+                try:
+                    sM2 = Spec(M, mf, of, None)
+                    S1, S2 = M.sigma((1,)), M.sigma((2,))
+                    K2 = z3.Star(S2)
+                    WF12 = inter(sM2.WF((1, 2)), z3.Concat(z3.Star(S1), K2))
+                    if tpl.get("domain"):
+                        dom = tpl["domain"]
+                        WF12 = inter(WF12, DOMAINS[dom](M) if isinstance(dom, str) else DOMAINS[dom[0]](M, tuple(dom[1])))
+                    SM = sM2.seq(pattern, K2, (1,))
+                    for tag, r in (("S-J", inter(WF12, SM)), ("S-J", inter(WF12, SM, z3.Concat(z3.Star(S1), z3.Plus(S2)))), ("J-S", inter(WF12, comp(SM), z3.Concat(z3.Plus(S1), K2)))):
+                        v, w = q.check(r)
+                        if v != "sat":
+                            continue
+                        stream, n1 = split_coloured(M, w)
+                        ra = real_admits(regex_text, stream, n1)
+                        idx = record_index(stream, n1)
+                        oa = idx is not None and idx in orc.ends(pattern, jasmapi.decode_stream(stream), 0)
+                        if (tag == "S-J" and oa and not ra) or (tag == "J-S" and ra and not oa):
+                            obligation("AEM", tag, "sat", "reference-side witness (translator could not encode the compiled regex)", stream=stream, extent=n1, real_admits=ra, oracle_admits=oa, confirmed=True)
+                except Exception:
+                    pass
         except Exception as e:
             obligation("ENCODE", "-", "error", traceback.format_exc(limit=4))
     res["solver_s"] = q.wall
